@@ -8,6 +8,7 @@
 //          exact mirror symmetry of the symmetric variant, periodic(n) == first n points of symmetric(n+1).
 // Nothing here shares code with dsplib: the response is the plain sum  H(f) = sum_k h[k] exp(-i pi f k)  in long double.
 #include "kit/num.h"
+#include "kit/prelude.h"
 #include <dsplib.h>
 
 using namespace vk;
